@@ -150,6 +150,12 @@ func (c *diskCache) findMissingCasBlobsInternal(ctx context.Context, blobs []*pb
 			}
 			return errRequestCancelled
 		case <-waitCh: // Everything in the waitgroup has finished.
+			// The last worker may have reported a miss (and cancelled the
+			// context) just before finishing: both cases are then ready and
+			// select picks one at random.
+			if cancelledDueToFailFast.Load() {
+				return errMissingBlob
+			}
 		}
 	}
 
